@@ -92,73 +92,160 @@ def _incr(n, var):
     return None
 
 
+def _is_next_obj_store(s):
+    a = _assign(s)
+    if not a:
+        return False
+    l = _core(a[0])
+    return l.get("kind") == "MemberExpr" and l.get("name") == "next_obj"
+
+
 def expand_loop(tr, fn):
-    """Recognise  `vp = ap; [for|while|do-while counting loop] { *vp = vp + stride; vp = *vp; }  *vp = NULL;`  in
-    cmi_mempool_expand and return (lean expr of the number of link steps, lean expr of the stride, loop form).
-    Raises Untranslatable for any other shape (the loop is then tied by correspondence only and the check says so)."""
+    """Recognise the loop of cmi_mempool_expand that threads the objects of a fresh chunk, up to spelling:
+
+        <locals>  [for | while | do-while counting loop]  { one step }  *P = NULL;
+
+    * P, the chain pointer, is the `void **` local declared (with a value) in the run of declarations before the loop;
+      the other locals of that run are scalars (stride, hoisted loop bound, counter) in any order and under any name:
+      reads of them are replaced by their initialisers.  Only declarations, asserts and the store `mp->next_obj = …`
+      may stand between the last other statement and the loop, so a hoisted bound reads the same pool fields as the
+      loop would.
+    * one step is evaluated symbolically (pointer values of the form cur / cur + S with cur = P at the start of the
+      step): whatever the statements are called and however they are ordered, the step must store cur + S into *cur
+      exactly once, store nowhere else, and leave P = cur + S, for one loop-invariant scalar S.  Accepted spellings include
+      `*vp = vp + s; vp = *vp;`,  `next = link + s; *link = next; link = next;`,  `*vp = vp + s; vp += s;`.
+    * the loop must count: `for (c = a; c < E; ++c)`, `c = a; while (c < E) { step; ++c; }`,
+      `c = a; do { step } while (++c < E)` (or `c++ < E`), a literal a, E a loop-invariant scalar; the trip count is
+      E - a, resp. max 1 (E - a) / max 1 (E + 1 - a) for do-while.  Address-bounded walks are rejected.
+    Returns (lean expr of the number of steps, lean expr of S, loop form); raises Untranslatable otherwise.
+    Whether the count and the stride are the right ones is NOT decided here: Props/C20 proves it (or fails to)."""
     U = c2lean.Untranslatable
     body = [c for c in fn["inner"] if c.get("kind") == "CompoundStmt"][0]
     stmts = [s for s in body["inner"] if not tr.is_assert_noop(s)]
-    env = {p["name"]: p["name"] for p in fn["inner"] if p.get("kind") == "ParmVarDecl"}
-    # chain pointer: the local of type void ** ; everything of interest comes after its declaration
-    start, vp = None, None
-    for i, s in enumerate(stmts):
-        if s.get("kind") == "DeclStmt":
-            for v in s["inner"]:
-                if v.get("kind") == "VarDecl" and c2lean.norm_type(c2lean.qt(v)) == "void **":
-                    start, vp = i, v["name"]
-    if vp is None:
-        raise U("cmi_mempool_expand: no local of type void ** (chain pointer) found")
-    locs = {}          # scalar locals declared with an initialiser: name -> init AST
-    loop, loop_i = None, None
-    for i in range(start + 1, len(stmts)):
-        s = stmts[i]
-        if s.get("kind") == "DeclStmt":
-            for v in s["inner"]:
-                init = [c for c in v.get("inner", []) if c.get("kind") != "FullComment"]
-                if v.get("kind") != "VarDecl" or not init:
-                    raise U("cmi_mempool_expand: declaration without initialiser before the chaining loop")
-                locs[v["name"]] = init[0]
-        elif s.get("kind") in ("ForStmt", "WhileStmt", "DoStmt"):
-            loop, loop_i = s, i
-            break
-        else:
-            raise U("cmi_mempool_expand: statement kind %s between the chain pointer and the chaining loop" % s.get("kind"))
-    if loop is None:
-        raise U("cmi_mempool_expand: no chaining loop found")
-    term = stmts[loop_i + 1] if loop_i + 1 < len(stmts) else None
-    a = _assign(term) if term else None
-    if not a or _deref(a[0]) != vp or _literal(a[1]) != 0:
-        raise U("cmi_mempool_expand: the chaining loop is not followed by `*%s = NULL`" % vp)
-    if len(stmts) != loop_i + 2:
-        raise U("cmi_mempool_expand: statements after the NULL terminator")
+    env0 = {p["name"]: p["name"] for p in fn["inner"] if p.get("kind") == "ParmVarDecl"}
+    loops = [i for i, s in enumerate(stmts) if s.get("kind") in ("ForStmt", "WhileStmt") or
+             (s.get("kind") == "DoStmt")]
+    if len(loops) != 1:
+        raise U("cmi_mempool_expand: expected exactly one loop, found %d" % len(loops))
+    li = loops[0]
+    loop = stmts[li]
+    # the run of declarations (and the next_obj store) right before the loop
+    start = li
+    while start > 0 and (stmts[start - 1].get("kind") == "DeclStmt" or _is_next_obj_store(stmts[start - 1])):
+        start -= 1
+    env = dict(env0)       # scalar locals -> lean expression of their value
+    lits = {}              # scalar locals initialised with a literal
+    ptrs = {}              # pointer locals -> symbolic value
+    chain = None
 
-    def link_body(b, extra=None):
-        """checks `*vp = vp + S; vp = *vp;` (+ optionally the counter increment); returns the AST of S"""
+    def is_ptr(v):
+        return c2lean.qt(v).replace("const", "").replace(" ", "").endswith("*")
+
+    def declare(v, pstate):
+        nonlocal chain
+        init = [c for c in v.get("inner", []) if c.get("kind") != "FullComment"]
+        if v.get("kind") != "VarDecl":
+            raise U("cmi_mempool_expand: declaration kind %s next to the chaining loop" % v.get("kind"))
+        if is_ptr(v):
+            if pstate is None:
+                if c2lean.norm_type(c2lean.qt(v)).replace("const", "").replace(" ", "") == "void**" and init:
+                    if chain is not None:
+                        raise U("cmi_mempool_expand: two candidate chain pointers (%s, %s)" % (chain, v["name"]))
+                    chain = v["name"]
+                return
+            if not init:
+                raise U("pointer local %s declared without a value in the loop body" % v["name"])
+            pstate["vars"][v["name"]] = peval(init[0], pstate)
+            return
+        if not init:
+            raise U("scalar local %s declared without a value next to the chaining loop" % v["name"])
+        if _literal(init[0]) is not None:
+            lits[v["name"]] = _literal(init[0])
+        env[v["name"]] = "(%s)" % tr.expr(init[0], env)
+
+    for s in stmts[start:li]:
+        if s.get("kind") == "DeclStmt":
+            for v in s["inner"]:
+                declare(v, None)
+    if chain is None:
+        raise U("cmi_mempool_expand: no `void **` chain pointer declared in the declarations before the loop")
+
+    # ---- symbolic evaluation of one step -------------------------------------------------------------------
+    def scalar(n):
+        return tr.expr(n, env)
+
+    def peval(n, st):
+        n = _core(n)
+        k = n.get("kind")
+        if k == "DeclRefExpr":
+            name = n["referencedDecl"]["name"]
+            if name in st["vars"]:
+                return st["vars"][name]
+            raise U("chaining loop: pointer expression reads %s" % name)
+        if k == "UnaryOperator" and n.get("opcode") == "*":
+            tgt = peval(n["inner"][0], st)
+            if tgt == ("cur", None) and st["stored"] is not None:
+                return st["stored"]
+            raise U("chaining loop: reads through a pointer other than the link just written")
+        if k == "BinaryOperator" and n.get("opcode") == "+":
+            l, r = n["inner"]
+            base = peval(l, st)
+            if base != ("cur", None):
+                raise U("chaining loop: pointer arithmetic on something other than the current object")
+            return ("cur", scalar(r))
+        raise U("chaining loop: pointer expression kind %s" % k)
+
+    def step(b, counter=None):
+        st = {"vars": {chain: ("cur", None)}, "stored": None}
+        counted = False
         ss = [x for x in (b["inner"] if b.get("kind") == "CompoundStmt" else [b]) if not tr.is_assert_noop(x)]
-        if extra:
-            if len(ss) != 3 or not _incr(ss[2], extra):
-                raise U("chaining loop body: expected link, advance, ++%s" % extra)
-            ss = ss[:2]
-        if len(ss) != 2:
-            raise U("chaining loop body: expected exactly `*vp = vp + stride; vp = *vp;`")
-        a1, a2 = _assign(ss[0]), _assign(ss[1])
-        if not a1 or not a2 or _deref(a1[0]) != vp or _ref(a2[0]) != vp or _deref(a2[1]) != vp:
-            raise U("chaining loop body: not of the form `*vp = vp + stride; vp = *vp;`")
-        add = _core(a1[1])
-        if add.get("kind") != "BinaryOperator" or add.get("opcode") != "+" or _ref(add["inner"][0]) != vp:
-            raise U("chaining loop body: link is not `vp + stride`")
-        return add["inner"][1]
+        for x in ss:
+            if x.get("kind") == "DeclStmt":
+                for v in x["inner"]:
+                    if not is_ptr(v):
+                        raise U("chaining loop: scalar declaration inside the loop body")
+                    declare(v, st)
+                continue
+            if counter and _incr(x, counter):
+                if counted:
+                    raise U("chaining loop: counter incremented twice")
+                counted = True
+                continue
+            c = _core(x)
+            if c.get("kind") == "CompoundAssignOperator" and c.get("opcode") == "+=" and _ref(c["inner"][0]) in st["vars"]:
+                name = _ref(c["inner"][0])
+                if st["vars"][name] != ("cur", None):
+                    raise U("chaining loop: += on a pointer that has already moved")
+                st["vars"][name] = ("cur", scalar(c["inner"][1]))
+                continue
+            a = _assign(x)
+            if not a:
+                raise U("chaining loop: statement kind %s in the loop body" % c.get("kind"))
+            lhs = _core(a[0])
+            if lhs.get("kind") == "UnaryOperator" and lhs.get("opcode") == "*":
+                if peval(lhs["inner"][0], st) != ("cur", None) or st["stored"] is not None:
+                    raise U("chaining loop: a store other than the one link of the current object")
+                st["stored"] = peval(a[1], st)
+            elif _ref(lhs) in st["vars"]:
+                st["vars"][_ref(lhs)] = peval(a[1], st)
+            else:
+                raise U("chaining loop: assignment to %s in the loop body" % (_ref(lhs) or lhs.get("kind")))
+        if counter and not counted:
+            raise U("chaining while-loop does not increment its counter")
+        nxt = st["vars"][chain]
+        if st["stored"] is None or nxt[0] != "cur" or nxt[1] is None or st["stored"] != nxt:
+            raise U("chaining loop: one step must store cur + S into *cur and advance the chain pointer to cur + S")
+        return nxt[1]
 
     def counter_start(name):
-        if name not in locs or _literal(locs[name]) is None:
+        if name not in lits:
             raise U("chaining loop counter %s does not start from a literal" % name)
-        return _literal(locs[name])
+        return lits[name]
 
     def bound(cond, lhs_ok):
         c = _core(cond)
         if c.get("kind") != "BinaryOperator" or c.get("opcode") != "<" or not lhs_ok(c["inner"][0]):
-            raise U("chaining loop condition is not `counter < bound`")
+            raise U("chaining loop condition is not `counter < bound` (address-bounded walks are not counting loops)")
         return tr.expr(c["inner"][1], env)
 
     k = loop["kind"]
@@ -166,24 +253,28 @@ def expand_loop(tr, fn):
         init, _, cond, inc, b = loop["inner"]
         ui = None
         if init.get("kind") == "DeclStmt" and len(init["inner"]) == 1 and init["inner"][0].get("kind") == "VarDecl":
-            v = init["inner"][0]
-            ui = v["name"]
-            locs[ui] = [c for c in v.get("inner", []) if c.get("kind") != "FullComment"][0]
+            ui = init["inner"][0]["name"]
+            declare(init["inner"][0], None)
+        elif _assign(init) and _ref(_assign(init)[0]) and _literal(_assign(init)[1]) is not None:
+            ui = _ref(_assign(init)[0])
+            lits[ui] = _literal(_assign(init)[1])
         if ui is None or not _incr(inc, ui):
             raise U("chaining for-loop: counter declaration / increment not recognised")
         a0 = counter_start(ui)
+        env.pop(ui, None)
         E = bound(cond, lambda l: _ref(l) == ui)
-        stride = link_body(b)
+        stride = step(b)
         count = "(%s - %d)" % (E, a0)
     elif k == "WhileStmt":
         cond, b = loop["inner"]
         c = _core(cond)
         ui = _ref(c["inner"][0]) if c.get("kind") == "BinaryOperator" else None
-        if ui is None:
-            raise U("chaining while-loop without a counter")
+        if ui is None or ui not in lits:
+            raise U("chaining while-loop without a counter (address-bounded walks are not counting loops)")
         a0 = counter_start(ui)
+        env.pop(ui, None)
         E = bound(cond, lambda l: _ref(l) == ui)
-        stride = link_body(b, extra=ui)
+        stride = step(b, counter=ui)
         count = "(%s - %d)" % (E, a0)
     else:
         b, cond = loop["inner"]
@@ -194,13 +285,19 @@ def expand_loop(tr, fn):
         if not mode:
             raise U("chaining do-while-loop: condition is not `++counter < bound`")
         a0 = counter_start(ui)
+        env.pop(ui, None)
         E = bound(cond, lambda l: _incr(l, ui) is not None)
-        stride = link_body(b)
+        stride = step(b)
         # the body runs once before the first test
         count = "(Nat.max 1 (%s - %d))" % (E, a0) if mode == "pre" else "(Nat.max 1 (%s + 1 - %d))" % (E, a0)
-    sname = _ref(stride)
-    s_ast = locs[sname] if sname in locs else stride
-    return count, tr.expr(s_ast, env), {"ForStmt": "for", "WhileStmt": "while", "DoStmt": "do-while"}[k]
+    # after the loop: exactly `*P = NULL`
+    rest = stmts[li + 1:]
+    a = _assign(rest[0]) if rest else None
+    if not a or _deref(a[0]) != chain or _literal(a[1]) != 0:
+        raise U("cmi_mempool_expand: the chaining loop is not followed by `*%s = NULL`" % chain)
+    if len(rest) != 1:
+        raise U("cmi_mempool_expand: statements after the NULL terminator")
+    return count, stride, {"ForStmt": "for", "WhileStmt": "while", "DoStmt": "do-while"}[k]
 
 
 def generate(impl):
